@@ -290,14 +290,22 @@ func usesEnum(ms []absd.Msg) bool {
 }
 
 func buildFile(name, pkg, goImport string, msgs []absd.Msg, withGogo bool) *descriptor.FileDescriptorProto {
-	return buildFileEnum(name, pkg, goImport, msgs, withGogo, true)
+	return buildFileEnum(name, pkg, pkg, goImport, msgs, withGogo, true)
+}
+
+// protoPackage: the proto package of the files of a descriptor (dotted on request; the Go package name stays d.Pkg)
+func protoPackage(d absd.Desc) string {
+	if d.Dotted {
+		return "acme." + d.Pkg + ".v1"
+	}
+	return d.Pkg
 }
 
 // buildFileEnum: a second file of the same proto package must not declare the fixed enum again.
-func buildFileEnum(name, pkg, goImport string, msgs []absd.Msg, withGogo, withEnum bool) *descriptor.FileDescriptorProto {
+func buildFileEnum(name, pkg, protoPkg, goImport string, msgs []absd.Msg, withGogo, withEnum bool) *descriptor.FileDescriptorProto {
 	fd := &descriptor.FileDescriptorProto{
 		Name:    proto.String(name),
-		Package: proto.String(pkg),
+		Package: proto.String(protoPkg),
 		Syntax:  proto.String("proto3"),
 		Options: &descriptor.FileOptions{GoPackage: proto.String(goImport + ";" + pkg)},
 	}
@@ -323,7 +331,7 @@ func buildFileEnum(name, pkg, goImport string, msgs []absd.Msg, withGogo, withEn
 	}
 	sci := &descriptor.SourceCodeInfo{}
 	for i, m := range msgs {
-		fd.MessageType = append(fd.MessageType, buildMessage(pkg, i, m, sci))
+		fd.MessageType = append(fd.MessageType, buildMessage(protoPkg, i, m, sci))
 	}
 	if len(sci.Location) > 0 {
 		// file-level declarations carry comments of their own (paths 12 = syntax, 2 = package)
@@ -373,13 +381,13 @@ func Request(d absd.Desc, l Layout) *plugin.CodeGeneratorRequest {
 	var shared []string
 	for _, dep := range d.Deps {
 		if dep.Share {
-			req.ProtoFile = append(req.ProtoFile, buildFileEnum(dep.Pkg+".proto", d.Pkg, l.StructImport, dep.Msgs, true, false))
+			req.ProtoFile = append(req.ProtoFile, buildFileEnum(dep.Pkg+".proto", d.Pkg, protoPackage(d), l.StructImport, dep.Msgs, true, false))
 			shared = append(shared, dep.Pkg+".proto")
 			continue
 		}
 		req.ProtoFile = append(req.ProtoFile, buildFile(dep.Pkg+".proto", dep.Pkg, l.DepImportBase+"/"+dep.Pkg, dep.Msgs, true))
 	}
-	f := buildFile(d.Pkg+".proto", d.Pkg, l.StructImport, d.Msgs, true)
+	f := buildFileEnum(d.Pkg+".proto", d.Pkg, protoPackage(d), l.StructImport, d.Msgs, true, true)
 	f.Dependency = append(f.Dependency, shared...)
 	req.ProtoFile = append(req.ProtoFile, f)
 	req.FileToGenerate = []string{d.Pkg + ".proto"}
